@@ -51,7 +51,7 @@ func adminCreds() []adminCred {
 // sha256 of "v1ew" (precomputed: the oracle only remembers the plaintext)
 const adminViewerHash = "sha256:" + "1NshQ8BH8P4XRoHvUNuf8Q80SOfPWzPzoGxj/AiHFgs="
 
-func adminUserSets(rng interface{ IntN(int) int }, actions []string, paths []string) []RefUser {
+func adminUserSets(rng interface{ IntN(int) int }, actions []string, paths []string, primary string) []RefUser {
 	var users []RefUser
 	ipChoices := [][]string{{}, {}, {"127.0.0.1/32"}, {"127.0.0.2"}, {"::1/128"}, {"127.0.0.0/30"}}
 	n := rng.IntN(4)
@@ -68,6 +68,9 @@ func adminUserSets(rng interface{ IntN(int) int }, actions []string, paths []str
 		u.IPs = ipChoices[rng.IntN(len(ipChoices))]
 		for k := 1 + rng.IntN(3); k > 0; k-- {
 			p := RefPerm{Action: actions[rng.IntN(len(actions))]}
+			if i == 0 && len(u.Perms) == 0 && rng.IntN(4) != 0 {
+				p.Action = primary // most user lists grant the monitored action to someone (from some address)
+			}
 			if p.Action == "playback" || p.Action == "read" || p.Action == "publish" {
 				p.Path = append([]string{""}, paths...)[rng.IntN(len(paths)+1)]
 			}
@@ -102,18 +105,23 @@ func AdminAuthMonitor(r *Run, cfg AdminCfg) {
 	clients := map[string]*http.Client{"127.0.0.1": mkClient("127.0.0.1"), "127.0.0.2": mkClient("127.0.0.2")}
 	creds := adminCreds()
 	for bi := 0; bi < cfg.Batches; bi++ {
-		users := adminUserSets(rng, allActions, paths)
+		users := adminUserSets(rng, allActions, paths, cfg.Routes[0].Action)
 		uj, _ := json.Marshal(refUsersToConf(users))
 		if err := cfg.SetUsers(string(uj)); err != nil {
 			r.T.Fatalf("harness: user list rejected: %v: %s", err, uj)
 		}
 		before := cfg.State()
+		if bi < 3 {
+			r.Sample(map[string]any{"server": cfg.Name, "user_list": refUsersToConf(users)})
+		}
 		type job struct {
 			rt        AdminRoute
 			cred      adminCred
 			ip        string
 			preflight bool
 			want      bool
+			spoofHdr  string // forwarding header naming another client address (no proxy is trusted: must be ignored)
+			spoofIP   string
 		}
 		var jobs []job
 		admittedAny := false
@@ -129,6 +137,18 @@ func AdminAuthMonitor(r *Run, cfg AdminCfg) {
 			}
 			j := job{rt: rt, cred: creds[rng.IntN(len(creds))], ip: []string{"127.0.0.1", "127.0.0.2"}[rng.IntN(2)], preflight: rng.IntN(12) == 0}
 			j.want, _ = RefAdmit(users, RefReq{Action: rt.Action, Path: rt.Path, User: j.cred.user, Pass: j.cred.pass, IP: j.ip}, nil)
+			if rng.IntN(4) == 0 {
+				j.spoofHdr = []string{"X-Forwarded-For", "X-Real-Ip", "Forwarded"}[rng.IntN(3)]
+				j.spoofIP = []string{"127.0.0.1", "127.0.0.2", "::1"}[rng.IntN(3)]
+				// adversarial choice: prefer an address for which the decision would be different
+				for _, cand := range []string{"127.0.0.1", "127.0.0.2", "::1"} {
+					if w, _ := RefAdmit(users, RefReq{Action: rt.Action, Path: rt.Path, User: j.cred.user, Pass: j.cred.pass, IP: cand}, nil); w != j.want {
+						j.spoofIP = cand
+						r.Count("requests_whose_forwarding_header_names_an_address_with_the_opposite_decision", 1)
+						break
+					}
+				}
+			}
 			if j.want && !j.preflight {
 				admittedAny = true
 			}
@@ -157,8 +177,13 @@ func AdminAuthMonitor(r *Run, cfg AdminCfg) {
 				if j.preflight {
 					req.Header.Set("Access-Control-Request-Method", j.rt.Method)
 				}
+				if j.spoofHdr == "Forwarded" {
+					req.Header.Set("Forwarded", "for="+j.spoofIP)
+				} else if j.spoofHdr != "" {
+					req.Header.Set(j.spoofHdr, j.spoofIP)
+				}
 				res, err := clients[j.ip].Do(req)
-				key := fmt.Sprintf("%s|%s %s|%s|%s|%v", cfg.Name, j.rt.Method, j.rt.URL, j.cred.kind, j.ip, JSON(users))
+				key := fmt.Sprintf("%s|%s %s|%s|%s|%s=%s|%v", cfg.Name, j.rt.Method, j.rt.URL, j.cred.kind, j.ip, j.spoofHdr, j.spoofIP, JSON(users))
 				if err != nil {
 					r.Inconclusive("%s: request %s %s failed: %v", cfg.Name, method, j.rt.URL, err)
 					return
@@ -166,7 +191,7 @@ func AdminAuthMonitor(r *Run, cfg AdminCfg) {
 				b, _ := io.ReadAll(res.Body)
 				res.Body.Close()
 				r.Eval(key)
-				wit := map[string]any{"server": cfg.Name, "users": users, "method": method, "url": j.rt.URL, "credentials": j.cred.kind, "client_ip": j.ip, "status": res.StatusCode, "body": string(b[:min(len(b), 300)])}
+				wit := map[string]any{"server": cfg.Name, "users": users, "method": method, "url": j.rt.URL, "credentials": j.cred.kind, "client_ip": j.ip, "forwarding_header": j.spoofHdr + " " + j.spoofIP, "status": res.StatusCode, "body": string(b[:min(len(b), 300)])}
 				if r.WantSample() && bi == 1 {
 					r.Sample(map[string]any{"server": cfg.Name, "request": method + " " + j.rt.URL, "credentials": j.cred.kind, "client_ip": j.ip, "admitted_by_reference": j.want, "status": res.StatusCode})
 				}
@@ -217,4 +242,4 @@ func refUsersToConf(users []RefUser) []map[string]any {
 }
 
 // AdminRule is the evidence rule shared by the C04 parts.
-const AdminRule = "real server on loopback with a real auth.Manager (internal method); batches = a generated user list (0..3 users among any / admin:secret / viewer with sha256 password; IP lists none, 127.0.0.1/32, 127.0.0.2, ::1/128, 127.0.0.0/30; 1..3 permissions over api/metrics/pprof/playback(path)/read/publish) x every route of the live router x credential placement (none, Basic ok / wrong / empty password, 'Bearer user:pass', bearer token, other user) x client IP 127.0.0.1 or 127.0.0.2 (distinct loopback aliases) x occasional CORS preflight; denied requests run 48-way concurrently (each costs the anti-brute-force pause). Oracle = vmon.RefAdmit: not admitted => 401 with exactly the fixed error JSON and (for all-denied batches) unchanged state fingerprint; admitted => not 401; preflight => 204 with empty body. non-trivial = distinct (route, credentials, ip, user list)"
+const AdminRule = "real server on loopback with a real auth.Manager (internal method); batches = a generated user list (0..3 users among any / admin:secret / viewer with sha256 password; IP lists none, 127.0.0.1/32, 127.0.0.2, ::1/128, 127.0.0.0/30; 1..3 permissions over api/metrics/pprof/playback(path)/read/publish) x every route of the live router x credential placement (none, Basic ok / wrong / empty password, 'Bearer user:pass', bearer token, other user) x client IP 127.0.0.1 or 127.0.0.2 (distinct loopback aliases) x optional X-Forwarded-For / X-Real-Ip / Forwarded header naming another address (no trusted proxy is configured, so it must not count) x occasional CORS preflight; denied requests run 48-way concurrently (each costs the anti-brute-force pause). Oracle = vmon.RefAdmit: not admitted => 401 with exactly the fixed error JSON and (for all-denied batches) unchanged state fingerprint; admitted => not 401; preflight => 204 with empty body. non-trivial = distinct (route, credentials, ip, user list)"
